@@ -25,11 +25,15 @@ def log(*a):
     print(*a, flush=True)
 
 
+EXTRA_ENV = {}
+
+
 def env_base():
     e = dict(os.environ)
     e["CARGO_NET_OFFLINE"] = "true"
     e.pop("RUSTFLAGS", None)
     e.pop("RUSTUP_TOOLCHAIN", None)
+    e.update(EXTRA_ENV)
     return e
 
 
@@ -328,8 +332,12 @@ def check(prop, tier, only=None, keep=False, jobs=None):
             export = os.path.join(root, "out.json")
             flt = filters if not feat else [f.replace("_q_", "_q%s_" % meta.FEATURE_TAG[feat]).replace("_t_", "_t%s_" % meta.FEATURE_TAG[feat]) for f in filters]
             cmd = kani_cmd(flt, tgt, jobs, h_timeout, export)
+            if cfg.get("hooks"):
+                # verification hooks in /repo are compiled in only for these checks
+                EXTRA_ENV["RUSTFLAGS"] = "--cfg pilota_verif"
+            kenv = env_base()
             total_to = cfg.get("total_timeout_" + tier, 3000 if tier == "quick" else 6 * 3600)
-            rc, timed_out = run(cmd, hk, logf, total_to, mem_gb=mem)
+            rc, timed_out = run(cmd, hk, logf, total_to, mem_gb=mem, env=kenv)
             if not os.path.isfile(export):
                 txt = open(logf, errors="replace").read()
                 if re.search(r"error(\[E\d+\])?:", txt) and "could not compile" in txt:
@@ -476,6 +484,8 @@ def do_replay(prop, path):
         return 2
     harness = hm.group(1)
     cfg = meta.PROPS[prop]
+    if cfg.get("hooks"):
+        EXTRA_ENV["RUSTFLAGS"] = "--cfg pilota_verif"
     root, hk = make_scratch(prop, "replay")
     try:
         write_lib_rs(hk, cfg["modules"], bool(cfg.get("gen")))
